@@ -62,9 +62,13 @@ CLAIMS = {
  'C02': dict(
    text="Lean theorems: for every accepted text and every prior buffer content, Event::from_json writes exactly the bytes Event::from_parts writes "
         "from the decoded values (from_json_is_from_parts), so two accepted texts that decode to the same seven values give byte-identical "
-        "events whatever the buffers held (canonical_any_buffer). Correspondence + direct oracle: from_parts -> as_json -> Python json (same seven "
+        "events whatever the buffers held (canonical_any_buffer). THE ROUND TRIP (round_trip, round_trip_values): for every event whose fields fit the "
+        "format and whose strings are UTF-8 - any sizes, tag shapes and code points, incl. everything as_json escapes - as_json succeeds and from_json of "
+        "its text (with any trailing input, into any sufficient buffer with any prior contents) consumes exactly the text and yields exactly the bytes of "
+        "from_parts, whose accessors return the original event; underneath json_unescape(json_escape s) = s for every UTF-8 s (unescape_escape_id), so "
+        "escaping is injective. Correspondence + direct oracle: from_parts -> as_json -> Python json (same seven "
         "values) -> from_json into dirty buffers, plus 4 alternative renderings per event, all byte-identical to from_parts.",
-   note=PROOF_NOTE + "PARTIAL: that as_json of every UTF-8 event re-parses to the same values (unescape after escape) rests on the correspondence, not on a theorem.",
+   note=PROOF_NOTE + "The round trip is proved for the model's as_json/from_json; that the Rust functions are these is the correspondence (incl. the exhaustive \\uXXXX sweep). Non-UTF-8 strings (constructible only with from_parts) are outside round_trip: as_json refuses or mangles them, as the property allows.",
    technique="Lean 4 proof (parse well-formedness + decode-after-encode) + differential correspondence with Python json",
    design="6/C02"),
  'C07': dict(
@@ -77,11 +81,12 @@ CLAIMS = {
    design="6/C07"),
  'C08': dict(
    text="Lean theorems with SHA-256 (H) and BIP-340 verification (SV) as parameters: verify succeeds iff id = H(canon e) and SV pubkey id sig; every event "
-        "of the signing constructor verifies for any signer whose signatures verify; a changed id is always rejected; a change that alters the canonical "
-        "serialization is rejected given H is collision-free on the two serializations. Correspondence: events over every character class signed by "
+        "of the signing constructor verifies for any signer whose signatures verify; a changed id is always rejected; the canonical serialization determines pubkey, "
+        "created_at, kind, tags and content of every well-formed UTF-8 event (canon_determines_fields: injectivity, with the parsers as inverse), hence ANY change "
+        "to a hashed field of a verifying event is rejected given H does not collide on the two serializations (field_tamper_detected). Correspondence: events over every character class signed by "
         "the real sign_new must verify, their id must equal hashlib.sha256 of the MODEL's canonical serialization, and every single-field mutant "
         "(bits of id/pubkey/sig, created_at, kind, tag strings, tag structure, content) must fail the real verify.",
-   note=PROOF_NOTE + "PARTIAL: SHA-256 and BIP-340 are trusted (secp256k1); injectivity of the canonical serialization is checked by mutation, not proved.",
+   note=PROOF_NOTE + "SHA-256 and BIP-340 are parameters of the theorems (secp256k1 and the sha2 crate are trusted); collision-freeness is a stated hypothesis.",
    technique="Lean 4 proof (parametric in hash and signature scheme) + differential correspondence with hashlib.sha256 and mutation testing of the real verify",
    design="6/C08"),
  'C04': dict(
